@@ -12,7 +12,7 @@ Operations (node ids are creation indices):
     ["unregister", n, mid]
     ["use", n]                                first use of n (a probe call)
 
-mspec: {"mid", "t": class name, "kind": leaf|nextleaf|walk_list|acc_list|map_list|deep_list|nest_list|walk_tuple|wrap|self_list, "prio"}
+mspec: {"mid", "t": class name, "kind": leaf|nextleaf|walk_list|acc_list|both_list|map_list|deep_list|nest_list|walk_tuple|wrap|self_list, "prio"}
 
 Model of one node: ordered parents, linkback flag, own = stack of mids per signature
 (signature = (type name, priority)); the effective table overlays the parents' tables in mixin
@@ -96,7 +96,11 @@ class Graph:
         self.fns = {}      # mid -> function
         self.mspecs = {}   # mid -> mspec
         self.files = []
-        self.ns = {"__vf": vf, "__ALWAYS_EQ": ALWAYS_EQ}   # one shared globals dict, like a user's module
+        # two shared globals dicts, like two modules of a user: the methods written for even-numbered functions live in
+        # one, those for odd-numbered ones in the other (an inherited method then comes from another module than the
+        # heir's own methods)
+        self.ns = {"__vf": vf, "__ALWAYS_EQ": ALWAYS_EQ}
+        self.ns_odd = {"__vf": vf, "__ALWAYS_EQ": ALWAYS_EQ}
         self.log = []
         # on-demand registrations: performed on the real function during the real call (log of ok / refused), then
         # replayed at the same point of the reference interpretation
@@ -196,11 +200,13 @@ class Graph:
             body = f"return ['M{mid}'] + list(map(recurse, x))"
         elif kind == "self_list":
             body = f"return ['S{mid}'] + [F{owner_id}(e) for e in x]"
+        elif kind == "both_list":   # the function's own name *and* recurse in one body, the own name first
+            body = f"return ['B{mid}'] + [F{owner_id}(e) for e in x[:1]] + [recurse(e) for e in x[1:]]"
         else:
             raise ValueError(kind)
         # every method of every node is written `def f(x)`, the way a user's overloads and variants share one name
         src = f"def f(x, acc=None):\n    __vf.enter({mid}, locals())\n    {body}\n"
-        ns, file = load_source(src, self.ns, mid=mid, tag=self.tag, shared=True)
+        ns, file = load_source(src, self.ns_odd if owner_id % 2 else self.ns, mid=mid, tag=self.tag, shared=True)
         self.files.append(file)
         fn = ns["f"]
         fn.__annotations__ = {"x": self._cls(ms["t"])}
@@ -212,6 +218,7 @@ class Graph:
         d = getattr(n.ov, "dispatch", None)
         if d is not None:
             self.ns[f"F{n.id}"] = d
+            self.ns_odd[f"F{n.id}"] = d
 
     # ---- operations ------------------------------------------------------------------------------
     def apply(self, op):
@@ -358,6 +365,9 @@ class Graph:
             # ordinary Python scoping: the name is bound to the function the method was written for
             owner = self.nodes[ms["owner"]]
             return [f"S{mid}"] + [self.ev(owner, e) for e in v]
+        if kind == "both_list":
+            owner = self.nodes[ms["owner"]]
+            return [f"B{mid}"] + [self.ev(owner, e) for e in v[:1]] + [self.ev(n, e) for e in v[1:]]
         raise ValueError(kind)
 
     def call(self, n, v):
